@@ -10,6 +10,14 @@ COMMON_ASSUMPTIONS = [
 ]
 
 PROPS = {
+    'C17': dict(
+        unit_modules=['contracts.c17_text'], driver_modules=['drivers.c17'], level='proof',
+        level_text='LEN, LEFT, RIGHT, MID, FIND, REPLACE, UPPER, LOWER, TRIM, EXACT, CONCAT, CONCATENATE are verified from their real source through the real validate_args wrapper for ALL texts, positions and counts (unbounded) per argument class, against the 1-based clipped reference operations of the statement; the four algebraic identities are proved as lemmas over those contracts. FIND\'s minimality ("first" position) and argument lists longer than 3 are bounded only and are not counted.',
+        level_note='Trusted: str.upper/lower/strip, str(int), str(float) as uninterpreted functions with natively tested intrinsic axioms; Python slicing, str.index, concatenation are encoded exactly; pyvc interpreter (CPython cross-check + canaries each run); z3/cvc5. Floats as reals.',
+        trusted_base=['intrinsic axioms of the uninterpreted builtins (pyvc/models.py UF_AXIOMS), natively tested on every run'],
+        assumptions=COMMON_ASSUMPTIONS,
+        explanation='C17: proof obligations on the twelve text functions + 4 lemmas; FIND minimality and formula-level use are bounded.',
+    ),
     'C19': dict(
         unit_modules=['contracts.c19_engineering'],
         driver_modules=['drivers.c19'],
